@@ -163,6 +163,29 @@ pub fn run(_args: &[String]) -> i32 {
             println!("p {} {} {}", hex(x), hex(y), cols.join(","));
         }
     }
+    // aliasing operands: both sides are views of the same storage (same start, different lengths;
+    // overlapping sub-ranges; clones), for the Bytes/Bytes impls
+    println!("impls {}", names[0]);
+    for (i, x) in u.iter().enumerate() {
+        if x.len() < 1 || (i >= small && i % 5 != 0) {
+            continue;
+        }
+        for r in 0..BYTES_REPRS {
+            let base = mk_bytes(x, r, &mut ctx.kb);
+            let n = x.len();
+            let cuts: Vec<(usize, usize)> = vec![(0, n), (0, n - 1), (0, n / 2), (0, 0), (n / 2, n), (1.min(n), n), (n, n)];
+            for (a0, a1) in &cuts {
+                for (b0, b1) in &cuts {
+                    let a = base.slice(*a0..*a1);
+                    let mut b = base.clone();
+                    b.truncate(*b1);
+                    let b = if *b0 > 0 { b.slice(*b0..) } else { b };
+                    println!("p {} {} {}", hex(&x[*a0..*a1]), hex(&x[*b0..*b1]), res_ord::<Bytes>(&a, &b));
+                }
+            }
+            ctx.kb.clear();
+        }
+    }
     // hashing and Borrow: every representation of every string
     for x in &u {
         for r in 0..BYTES_REPRS {
